@@ -574,6 +574,16 @@ func randomCase(r *rand.Rand, id string) tcase {
 		c := &fileCtx{r: r, sb: &sb, ownPrefix: ownPrefix[i], imports: imps, fams: fams, n: &counter, hasOCExt: withOC, deep: deep}
 		c.typedefs(true, avoid)
 		c.body("module", 0)
+		if r.Intn(4) == 0 {
+			// an augment of a container of the same module: references in its body see the
+			// module's typedefs (an augment holds none itself), nested containers may declare more
+			tgt := c.name("t")
+			fmt.Fprintf(&sb, "container %s { }\naugment \"/%s:%s\" {\n", tgt, ownPrefix[i], tgt)
+			c.leaf()
+			fmt.Fprintf(&sb, "container %s {\n", c.name("c"))
+			c.body("container", 2)
+			sb.WriteString("}\n}\n")
+		}
 		sb.WriteString("}\n")
 		files = append(files, srcFile{mname + ".yang", sb.String()})
 		for k := 0; k < nSubs; k++ {
